@@ -16,7 +16,8 @@ def Tfin : Path → Bool
 theorem mem_aggInit {cfg : Cfg} {main lin : Stream → Path} {e : Ev} (h : e ∈ aggInit cfg main lin) :
     ∃ s, e = .create (main s) ∨ e = .create (lin s) := by
   simp only [aggInit, List.mem_append, List.mem_map, List.mem_flatMap, List.mem_cons, List.not_mem_nil, or_false] at h
-  rcases h with (((⟨s, _, rfl⟩ | ⟨s, _, rfl⟩) | rfl) | ⟨s, _, rfl | rfl⟩) | ⟨s, _, rfl⟩
+  rcases h with ((((⟨s, _, rfl⟩ | ⟨s, _, rfl⟩) | ⟨s, _, rfl⟩) | rfl) | ⟨s, _, rfl | rfl⟩) | ⟨s, _, rfl⟩
+  · exact ⟨s, Or.inl rfl⟩
   · exact ⟨s, Or.inl rfl⟩
   · exact ⟨s, Or.inl rfl⟩
   · exact ⟨_, Or.inl rfl⟩
@@ -62,14 +63,37 @@ theorem constructPre_stage {cfg : Cfg} {fs : FS} (h : J cfg fs) (hsv : SavesOK c
   simp only [List.all_eq_true]
   intro e he; obtain ⟨s, rfl | rfl⟩ := mem_aggInit he <;> rfl
 
-/-- the events of the recomputation of chromosome `c` up to (excluding) the `_processed` lock -/
-def constructBody (cfg : Cfg) (c : Chr) (t : Tok) : List Ev :=
-  aggInit cfg (fun s => .part s c) (fun s => .partLin s c)
-  ++ ((ungroupedGlobal cfg).flatMap (dumpUngrouped c t) ++ (groupedGlobal cfg).flatMap (dumpGrouped c t)
+/-- the files a task opens before it reads the save file (aggregator, GFF printers, its own SQANTI-like printer) -/
+def constructHead (cfg : Cfg) (c : Chr) : List Ev :=
+  aggInit cfg (fun s => .part s c) (fun s => .partLin s c) ++ (sqStreams cfg).map (fun s => Ev.create (.part s c))
+
+/-- what the recomputation of chromosome `c` writes after it read the save file, up to (excluding) the `_processed` lock -/
+def constructTail (cfg : Cfg) (c : Chr) (t : Tok) : List Ev :=
+  (ungroupedGlobal cfg).flatMap (dumpUngrouped c t) ++ (groupedGlobal cfg).flatMap (dumpGrouped c t)
             ++ [.create (.readStat c), .commit (.readStat c) t]
             ++ dumpUngrouped c t .model ++ (modelGrouped cfg).flatMap (dumpGrouped c t)
             ++ [.create (.trStat c), .commit (.trStat c) t]
-            ++ (printerStreams cfg).map (fun s => Ev.commit (.part s c) t))
+            ++ (printerStreams cfg).map (fun s => Ev.commit (.part s c) t)
+
+/-- the events of the recomputation of chromosome `c` up to (excluding) the `_processed` lock -/
+def constructBody (cfg : Cfg) (c : Chr) (t : Tok) : List Ev := constructHead cfg c ++ constructTail cfg c t
+
+theorem filter_const_true {α : Type} (l : List α) : l.filter (fun _ => true) = l := by
+  induction l with
+  | nil => rfl
+  | cons a l ih => simp [ih]
+
+theorem filter_const_false {α : Type} (l : List α) : l.filter (fun _ => false) = [] := by
+  induction l with
+  | nil => rfl
+  | cons a l ih => simp [ih]
+
+/-- the recomputation branch of a task of the repaired code -/
+theorem constructChr_fixed (cfg : Cfg) (rs : Bool) (c : Chr) (fs : FS) (hb : (rs && fs.has (.processed c)) = false) :
+    constructChr fixed cfg rs c fs =
+      Act.load (.multimap c) :: evs (constructHead cfg c) ++ [Act.load (.save c)] ++
+        evs (constructTail cfg c (tokOf (fs.good .info)) ++ [Ev.create (.processed c)]) := by
+  simp [constructChr, hb, fixed, constructHead, constructTail, filter_const_true, filter_const_false]
 
 /-- paths written by the model construction of chromosome `c` -/
 def Tcon (c : Chr) : Path → Bool
@@ -85,23 +109,23 @@ set_option maxRecDepth 4000 in
 theorem constructBody_good (cfg : Cfg) (c : Chr) (fs : FS) :
     ∀ d ∈ chrOutputs cfg c, (applyAll fs (constructBody cfg c .good)).good d = true := by
   rw [← List.all_eq_true]
-  rcases cfg with ⟨chrs, mchrs, bchrs, genedb, rg, keepTmp, unmapped⟩
-  cases genedb <;> cases rg <;>
-    simp [chrOutputs, constructBody, aggInit, printerStreams, aggPrinters, gffStreams, ungrouped, grouped, ungroupedGlobal,
+  rcases cfg with ⟨chrs, mchrs, bchrs, genedb, rg, keepTmp, unmapped, fromSaves, sqanti, carried⟩
+  cases genedb <;> cases rg <;> cases sqanti <;>
+    simp [chrOutputs, constructBody, constructHead, constructTail, sqStreams, aggInit, printerStreams, aggPrinters, gffStreams, ungrouped, grouped, ungroupedGlobal,
           groupedGlobal, modelGrouped, dumpUngrouped, dumpGrouped, applyAll, apply, FS.set, FS.good, Ev.path, Ev.val]
 
 set_option maxRecDepth 4000 in
 theorem constructBody_ok (cfg : Cfg) (c : Chr) (t : Tok) : bodyOK [.processed c] (constructBody cfg c t) = true := by
-  rcases cfg with ⟨chrs, mchrs, bchrs, genedb, rg, keepTmp, unmapped⟩
-  cases genedb <;> cases rg <;>
-    simp [bodyOK, constructBody, aggInit, printerStreams, aggPrinters, gffStreams, grouped, ungroupedGlobal,
+  rcases cfg with ⟨chrs, mchrs, bchrs, genedb, rg, keepTmp, unmapped, fromSaves, sqanti, carried⟩
+  cases genedb <;> cases rg <;> cases sqanti <;>
+    simp [bodyOK, constructBody, constructHead, constructTail, sqStreams, aggInit, printerStreams, aggPrinters, gffStreams, grouped, ungroupedGlobal,
           groupedGlobal, modelGrouped, dumpUngrouped, dumpGrouped, isLock, locksOf, Ev.path]
 
 set_option maxRecDepth 4000 in
 theorem constructBody_T (cfg : Cfg) (c : Chr) (t : Tok) : (constructBody cfg c t).all (fun e => Tcon c e.path) = true := by
-  rcases cfg with ⟨chrs, mchrs, bchrs, genedb, rg, keepTmp, unmapped⟩
-  cases genedb <;> cases rg <;>
-    simp [constructBody, aggInit, printerStreams, aggPrinters, gffStreams, grouped, ungroupedGlobal,
+  rcases cfg with ⟨chrs, mchrs, bchrs, genedb, rg, keepTmp, unmapped, fromSaves, sqanti, carried⟩
+  cases genedb <;> cases rg <;> cases sqanti <;>
+    simp [constructBody, constructHead, constructTail, sqStreams, aggInit, printerStreams, aggPrinters, gffStreams, grouped, ungroupedGlobal,
           groupedGlobal, modelGrouped, dumpUngrouped, dumpGrouped, Tcon, Ev.path]
 
 theorem readStat_mem_chrOutputs (cfg : Cfg) (c : Chr) : Path.readStat c ∈ chrOutputs cfg c := by simp [chrOutputs]
@@ -115,9 +139,8 @@ theorem constructChr_stage {cfg : Cfg} (rs : Bool) {fs : FS} (h : J cfg fs) {c :
   have hinfo : fs.good .info = true := hsv.1
   have hmm : fs.good (.multimap c) = true := (hsv.2 c hc).1
   have hsave : fs.good (.save c) = true := (hsv.2 c hc).2
-  unfold constructChr
   by_cases hb : (rs && fs.has (.processed c)) = true
-  · simp only [hb, if_true]
+  · simp only [constructChr, hb, if_true]
     simp only [Bool.and_eq_true] at hb
     have hg := h.2 (.processed c) hb.2
     simp only [guarded, hc, if_true] at hg
@@ -126,17 +149,16 @@ theorem constructChr_stage {cfg : Cfg} (rs : Bool) {fs : FS} (h : J cfg fs) {c :
     obtain ⟨hgood, hfs⟩ := good_of_checks hck (by simp only [eventsOf]; exact h)
     simp only [eventsOf, applyAll] at hfs
     exact ⟨hgood, by rw [hfs]; exact hb.2, fun p _ => by rw [hfs]⟩
-  · simp only [hb, Bool.false_eq_true, if_false, hinfo, tokOf, if_true, fixed, List.append_nil]
+  · have hb' : (rs && fs.has (.processed c)) = false := by simpa using hb
     have hnproc : fs.has (.processed c) = false := by
       cases rs with
       | false => exact hnp rfl
       | true => simpa using hb
-    generalize hA : aggInit cfg (fun s => Path.part s c) (fun s => Path.partLin s c) = A
-    generalize hX : ((ungroupedGlobal cfg).flatMap (dumpUngrouped c .good) ++ (groupedGlobal cfg).flatMap (dumpGrouped c .good)
-            ++ [Ev.create (.readStat c), .commit (.readStat c) .good]
-            ++ dumpUngrouped c .good .model ++ (modelGrouped cfg).flatMap (dumpGrouped c .good)
-            ++ [Ev.create (.trStat c), .commit (.trStat c) .good]
-            ++ (printerStreams cfg).map (fun s => Ev.commit (.part s c) .good)) = X
+    rw [constructChr_fixed cfg rs c fs hb']
+    have ht : tokOf (fs.good .info) = .good := by simp [tokOf, hinfo]
+    rw [ht]
+    generalize hA : constructHead cfg c = A
+    generalize hX : constructTail cfg c .good = X
     have hbody : constructBody cfg c .good = A ++ X := by subst hA; subst hX; rfl
     have hAT : A.all (fun e => Tcon c e.path) = true := by
       have := constructBody_T cfg c .good; rw [hbody, List.all_append, Bool.and_eq_true] at this; exact this.1
@@ -158,12 +180,8 @@ theorem constructChr_stage {cfg : Cfg} (rs : Bool) {fs : FS} (h : J cfg fs) {c :
       intro d hd
       simp only [guarded, hc, if_true] at hd
       exact constructBody_good cfg c fs d hd
-    have hacts : (Act.load (.multimap c) :: evs A ++ [Act.load (.save c)] ++
-        evs (X ++ [Ev.create (.processed c)])) = (Act.load (.multimap c) :: evs A ++ [Act.load (.save c)] ++ evs (X ++ [Ev.create (.processed c)])) := rfl
     obtain ⟨hgood, hfs⟩ := good_of_checks hck (by rw [hev, AllP_append]; exact ⟨h1, h2⟩)
     rw [hev] at hfs
-    subst hX
-    simp only [List.append_assoc] at hgood hfs ⊢
     refine ⟨hgood, ?_, fun p hp => ?_⟩
     · rw [hfs, applyAll_append]; simp [applyAll, apply, FS.has, Ev.path, Ev.val]
     · rw [hfs]
